@@ -591,6 +591,20 @@ def run(case):
                         l = solve_free(W, {0: s, 1: s}, [2])
                     ref.append(dW(W, l, 0))
                 c.close(f"{path}", f"view curve '{label}' vs the closed form (transverse stress free)", force, np.array(ref), scale=(max(np.abs(ref).max(), 0.1) if "@" not in mat else np.abs(ref).max()))
+        # the same stretches handed over as integer arrays / lists (np.arange(1, 4), [1, 2, 3]): the curves are those of the
+        # float array with the same values
+        if "@" not in mat:
+            kwv = dict(incompressible=True) if inc else {}
+            ref_data = um.view(ux=np.array([1.0, 2.0, 3.0]), ps=np.array([1.0, 2.0, 3.0]), bx=np.array([1.0, 2.0]), **kwv).evaluate()
+            for tlab, conv in (("int64", lambda a: np.array(a, dtype=np.int64)), ("int32", lambda a: np.array(a, dtype=np.int32))):  # (plain lists are not accepted by the view: documented as ndarray)
+                try:
+                    got_data = um.view(ux=conv([1, 2, 3]), ps=conv([1, 2, 3]), bx=conv([1, 2]), **kwv).evaluate()
+                except Exception as ex:  # noqa
+                    c.bad(f"stretch-type/{tlab}/exception", "view raised for stretches given as integers", repr(ex)[:160], "curves")
+                    continue
+                c.trans += 3
+                for (st_r, f_r, lab_r), (st_g, f_g, lab_g), path in zip(ref_data, got_data, ("ux", "ps", "bx")):
+                    c.close(f"stretch-type/{tlab}/{path}", f"view curve '{lab_r}' for integer-typed stretches vs the same stretches as floats", np.asarray(f_g, dtype=float), np.asarray(f_r, dtype=float), scale=max(np.abs(np.asarray(f_r, dtype=float)).max(), 0.1))
         return c.result(dict(case=case["key"], stretches=lam.tolist()))
     if kind == "view-soft":
         from scipy.optimize import brentq
